@@ -168,7 +168,8 @@ class Kauri(ClusterMixin, BaseEstimator, ABC):
                                      f"got shape {kernel.shape}")
         else:
             kernel = pairwise_kernels(X, metric=self.kernel)
-        return kernel
+        # The compiled routines read the kernel through a writable double-precision buffer
+        return np.require(kernel, dtype=np.float64, requirements=["C", "W"])
 
     def fit(self, X, y=None):
         """Performs the KAURI algorithm by repeatedly choosing leaves, evaluating best gain and increasing the tree
